@@ -474,6 +474,34 @@ theorem backtracking_witnesses :
     getMatchScore Variant.backtracking chainDoc pat_zab 5 = .other := by
   decide
 
+/-! ## namespace declarations -/
+
+/-- **The attribute node tests reject namespace declarations.**  A DOM attribute named `xmlns` or `xmlns:p` is a
+namespace node of the data model: `@*`, `@p:*`, `@name`, `@p:name` never select it, and the pattern matcher — which
+applies the tester to whatever raw attribute a consumer such as `KeyTable` offers — must not match it either: on such a
+node the tester answers None for every attribute name test, in agreement with the defining side (`Spec.testOK`).  The
+facts regenerated from the source say that each of the four `NodeTester::testAttribute*` functions checks
+`isNamespaceDeclaration(context)` itself. -/
+theorem attribute_tests_reject_namespace_declarations (d : Doc) (m : Nat) (t : Test)
+    (ht : (∃ s, t = .name s) ∨ (∃ p u l, t = .qname p u l) ∨ (∃ p u, t = .nsAny p u) ∨ t = .any)
+    (hns : Doc.isNsDeclName (d.name m) = true) :
+    tester d true (.t t) m = .none ∧ Spec.testOK d true t m = false ∧
+    Generated.C09_NodeTester.attributeTesters =
+      [("testAttributeNCName", true), ("testAttributeNamespaceOnly", true), ("testAttributeQName", true),
+       ("testAttributeTotallyWild", true)] := by
+  refine ⟨?_, ?_, by decide⟩
+  · rcases ht with ⟨s, rfl⟩ | ⟨p, u, l, rfl⟩ | ⟨p, u, rfl⟩ | rfl <;> simp [tester, hns]
+  · rcases ht with ⟨s, rfl⟩ | ⟨p, u, l, rfl⟩ | ⟨p, u, rfl⟩ | rfl <;> simp [Spec.testOK, hns]
+
+/-- non-vacuity: a raw `xmlns:p` attribute listed in a table is matched neither by `@*` nor selected by it; the
+ordinary attribute next to it is -/
+example :
+    let d : Doc := { nodes := [⟨.root, "", 0⟩, ⟨.elem, "a", 0⟩, ⟨.attr, "xmlns:p", 1⟩, ⟨.attr, "x", 1⟩] }
+    let P : Pattern := [⟨false, [(.child, { attrAxis := true, test := .any, preds := [] })]⟩]
+    (List.range 4).map (fun n => (getMatchScore Variant.backtracking d P n).toNat) = [0, 0, 0, 1] ∧
+      (List.range 4).map (fun n => Spec.matchesPattern d P n) = [false, false, false, true] := by
+  decide
+
 /-! ## every kind of tree -/
 
 /-- **Absolute patterns match relative to whatever root the node's tree has.**  The trees the processor holds are rooted
@@ -564,13 +592,16 @@ theorem target_data_complete :
 
 /-- **`KeyTable::KeyTable` offers every node to the key patterns** (facts regenerated from KeyTable.cpp): the
 pre-walk visits every node below the start node, compares node types only to fetch an element's attributes, walks
-those attributes, and tries every declaration on each; and if the file consults target data at all (an
+those attributes, and tries every declaration on each — the loop over the declarations contains no break / continue,
+so a node indexed for one `xsl:key` is still offered to the later declarations, also of the same name (XSLT 12.2) —;
+and if the file consults target data at all (an
 "optimisation" that skips attributes unless a key can target one), every last step that can match an attribute —
 `@name`, `@*`, `@p:*`, `@node()`/`attribute::node()`, an id()/key() call — must carry one of the target types the
 file names.  (`@node()` is classified eOther, so a filter on eAttribute/eAny breaks this theorem.) -/
 theorem keytable_visits_complete :
     (Generated.C09_KeyTable.walksTree = true ∧ Generated.C09_KeyTable.walksAttributes = true ∧
-      Generated.C09_KeyTable.testsEveryDeclaration = true ∧ Generated.C09_KeyTable.nodeTypeTests = ["ELEMENT_NODE"] ∧
+      Generated.C09_KeyTable.testsEveryDeclaration = true ∧ Generated.C09_KeyTable.declarationLoopRunsToEnd = true ∧
+      Generated.C09_KeyTable.nodeTypeTests = ["ELEMENT_NODE"] ∧
       (Generated.C09_KeyTable.mentionsTargetData = false ∨
         ∀ c ∈ [4, 10, 12, 14, 0], ∃ r ∈ Generated.C10.targetRows,
           r.1 = c ∧ r.2.2.2 ∈ Generated.C09_KeyTable.targetTypesMentioned)) ∧
